@@ -29,7 +29,7 @@ func checkC17(c *Ctx) {
 	r.Rule("R17.4", "reject runs none and wraps ErrAlreadyInvalidated; no callbacks ⇒ ErrNothingToInvalidate", 1)
 	r.NotDecided = []string{"clock behaviour", "what callbacks do"}
 	name := "Invalidator.Invalidate"
-	e, paths, _, err := c.runFunc(name, pw.Policy{Pure: func(fn *types.Func) bool { return false }})
+	e, paths, fnObj, err := c.runFunc(name, pw.Policy{Pure: func(fn *types.Func) bool { return false }})
 	if err != nil {
 		r.Unknown("R17.*", name, err.Error())
 		return
@@ -342,6 +342,23 @@ func checkC17(c *Ctx) {
 			if sel, ok := n.(*ast.SelectorExpr); ok && sel.Sel.Name == "Callbacks" {
 				if s := info.Selections[sel]; s != nil && namedTypeName(s.Recv()) == "Invalidator" {
 					r.Bad("R17.3", strings.TrimPrefix(pw.FuncName(fn), "cache."), "callbacks-used-elsewhere", c.Pos(sel.Pos()), "Invalidator.Callbacks is used outside Invalidate", nil)
+				}
+			}
+			return true
+		})
+	})
+	// callbacks run while a caller is inside an accepted Invalidate, and only then: the library itself never calls or schedules
+	// Invalidate (a "trailing" invalidation armed by a rejected call runs every callback for a call that was rejected)
+	c.eachFuncDecl(func(fd2 *ast.FuncDecl, fn2 *types.Func) {
+		if c.isNewAPI(fn2) {
+			return
+		}
+		ast.Inspect(fd2.Body, func(n ast.Node) bool {
+			if sel, ok := n.(*ast.SelectorExpr); ok {
+				if s := info.Selections[sel]; s != nil && (s.Kind() == types.MethodVal || s.Kind() == types.MethodExpr) {
+					if m, _ := s.Obj().(*types.Func); m != nil && m.Origin() == fnObj.Origin() {
+						r.Bad("R17.4", strings.TrimPrefix(pw.FuncName(fn2), "cache."), "invalidate-called-by-library", c.Pos(sel.Pos()), "the library itself calls or schedules Invalidator.Invalidate: callbacks run without (or beside) a caller's accepted call", nil)
+					}
 				}
 			}
 			return true
